@@ -68,11 +68,17 @@ _CHECK = None
 def _worker(case):
     # an exception inside the harness (not a verdict) is retried once: on an overloaded machine a dump or trace file can be cut short
     # by a timeout; only an exception that repeats is reported as a machinery error, together with the case
-    for attempt in (0, 1):
+    for attempt in (0, 1, 2):
         try:
             r = _CHECK.run_case(case)
             if r is None:
                 r = {"outcome": "none"}
+            if r.get("machinery") and attempt < 2:
+                # a case that reports a problem of the machinery itself (a control program that did not run, a dump that could not be read) is
+                # run again as well: on a busy machine one time-out must not turn a verdict-free case into exit status 2
+                tb = str(r["machinery"])
+                time.sleep(0.5)
+                continue
             if attempt:
                 r.setdefault("tags", [])
                 r["tags"] = list(r["tags"]) + ["harness-retry"]
